@@ -53,6 +53,14 @@ extern "C" void h_setup() {
   scope = new (sbuf) v2::async_scope();
   outcome[0] = nondet_u8(); outcome[1] = nondet_u8(); VF_ASSUME(outcome[0] <= 2 && outcome[1] <= 2);
 }
+// closed scope with exactly one admitted operation outstanding and a started join: the last completion races a late nest()
+extern "C" void h_setup_joined1() {
+  h_setup();
+  auto* op = new (nbuf[0]) nop_t(connect(scope->nest(vf::leaf_sender{0}), nrcv{0})); start(*op);
+  VF_ASSERT(vf::g_leaf_started[0], "harness: first nested operation not admitted");
+  joiner(0); VF_ASSERT(!join_completed, "join completed while a nested operation was still running");
+}
+extern "C" void h_complete0() { vf::complete_leaf(0, outcome[0], 7); reinterpret_cast<nop_t*>(nbuf[0])->~nop_t(); }
 extern "C" void h_nest0() { nester(0); }
 extern "C" void h_nest1() { nester(1); }
 extern "C" void h_join0() { joiner(0); }
